@@ -1065,7 +1065,9 @@ def _register(name, v, kind):
 def Int(name, lo=None, hi=None):
     c = ctx()
     if c.concrete:
-        v = c.model_vals[name]
+        # a variable the counterexample path never created (the violation came earlier) takes a
+        # default inside its declared range
+        v = c.model_vals.get(name, lo if isinstance(lo, int) else (hi if isinstance(hi, int) else 0))
         v = int(v)
         return v
     v = z3.Int(name)
@@ -1081,7 +1083,7 @@ def Int(name, lo=None, hi=None):
 def Real(name, lo=None, hi=None):
     c = ctx()
     if c.concrete:
-        return float(_parse_num(c.model_vals[name]))
+        return float(_parse_num(c.model_vals.get(name, 0)))
     v = z3.Real(name)
     _register(name, v, "real")
     if lo is not None:
@@ -1113,7 +1115,7 @@ def fresh_extreme(vals, kind):
 def Bool(name):
     c = ctx()
     if c.concrete:
-        return bool(c.model_vals[name])
+        return bool(c.model_vals.get(name, False))
     v = z3.Bool(name)
     _register(name, v, "bool")
     return SymBool(v)
